@@ -16,8 +16,8 @@ RULE = ("a ROM template (reset code sets S/U, strobes all key columns, writes IM
         "handler = NOP + body in {empty, touch RAM, re-enable bit 7, clear ISR bits, user-stack use} + RETI) runs on the real "
         "PCE500Emulator and CoreRuntime with timers of period 1-9 cycles; between ANY two step boundaries the driver may "
         "inject one event from {press/release key, ON key down/up, firmware-style write of IMR in {00,01,04,0F,80,81,84,8F,FF}, "
-        "ISR := 0, ISR |= bit}. All event sequences up to depth 2 (quick) / 3 (thorough) at all placements in a window are "
-        "enumerated for 3 base programs; plus seeded runs of 50-400 steps. One observation record per boundary (PC, S, F, "
+        "ISR := 0, ISR |= bit}. All event sequences up to depth 2 at all placements in a window (thorough: plus depth 3 over "
+        "a 14-event alphabet at every second placement) are enumerated for 3 base programs; plus seeded runs of 50-400 steps. One observation record per boundary (PC, S, F, "
         "IMR, ISR, 11 stack bytes, delivery flags/counters, timer targets, power) feeds an online checker of the "
         "statement's clauses. distinct_nontrivial = distinct runs in which at least one interrupt entry was observed.")
 ASSUMPTIONS = ["entry is recognised from architectural effects; model bookkeeping is only cross-checked",
@@ -222,13 +222,17 @@ def run_shard(spec) -> Result:
         places = list(range(6, 6 + window, 2 if tier == "quick" else 1))
         for base in bases:
             for d in range(1, depth + 1):
-                for combo in itertools.product(range(len(evs)), repeat=d):
-                    for pl in itertools.combinations(places, d):
+                # depth 3 (thorough) is enumerated over a 14-event alphabet and every second placement; depths 1-2 over
+                # the full alphabet and every placement
+                evs_d = evs if d < 3 else (evs[:5] + evs[5:14:2] + evs[14:])[:14]
+                places_d = places if d < 3 else places[::2]
+                for combo in itertools.product(range(len(evs_d)), repeat=d):
+                    for pl in itertools.combinations(places_d, d):
                         k += 1
                         if k % spec["parts"] != spec["part"]:
                             continue
                         scen = scenario(base[0], base[1], base[2], base[3])
-                        placed = {p: evs[c] for p, c in zip(pl, combo)}
+                        placed = {p: evs_d[c] for p, c in zip(pl, combo)}
                         jobs.append((scen, build_script(6 + window + 8, placed)))
         res.count("enumerated_runs", len(jobs))
     elif spec["kind"] == "valgrind":
